@@ -70,6 +70,8 @@ pub(crate) use builder::Builder;
 mod client;
 #[cfg(test)]
 mod tests;
+#[cfg(all(test, feature = "verif"))]
+mod verif;
 pub(super) use client::Client;
 
 type CelestiaHeight = u64;
